@@ -10,7 +10,7 @@ compared with the requested value.
 "Nearest value the configured datapoint can represent": the representable set is
 the decode image of the configured datapoint (all payloads of <= 2 octets decoded
 by the real DPT class; integers / binary32 / k*step for the rest).
-  * request representable (within 1e-9)  -> the device must report exactly it;
+  * request representable (it IS a value of the decode image, compared exactly) -> the device must report exactly it;
   * request strictly between two representable values -> the device must report
     one of the two neighbours (= within one step); which of the two is recorded
     (`reported_not_nearest`), not judged: the rounding mode of a DPT is the
@@ -64,19 +64,26 @@ class ImageRep:
         self.v = sorted(set(values))
 
     def around(self, want: float):
+        """'exact' only if the request IS a decode-image value (exact comparison, no tolerance)."""
         i = bisect.bisect_left(self.v, want)
-        for j in (i - 1, i, i + 1):
-            if 0 <= j < len(self.v) and abs(self.v[j] - want) <= _eps(want):
-                return "exact", self.v[j], self.v[j]
+        if i < len(self.v) and self.v[i] == want:
+            return "exact", self.v[i], self.v[i]
         lo = self.v[i - 1] if i > 0 else None
         hi = self.v[i] if i < len(self.v) else None
         return "between", lo, hi
+
+    @staticmethod
+    def same(got, r) -> bool:
+        return got == r
 
     def sample(self, rng: random.Random, ints: bool = False):
         c = rng.random()
         if c < 0.12:
             return rng.choice((self.v[0], self.v[-1]))
         i = rng.randrange(len(self.v))
+        if not ints and c < 0.22 and 0 < i < len(self.v) - 1:
+            # deliberately one float step beside a representable value: falls under the neighbour rule
+            return math.nextafter(float(self.v[i]), rng.choice((-math.inf, math.inf)))
         if c < 0.6 or ints or i + 1 >= len(self.v):
             return self.v[i]
         a, b = self.v[i], self.v[i + 1]
@@ -95,9 +102,13 @@ class IntRep:
     def around(self, want: float):
         if want < self.lo or want > self.hi:
             return "between", None, None
-        if abs(want - round(want)) <= _eps(want):
-            return "exact", round(want), round(want)
+        if want == math.floor(want):
+            return "exact", int(want), int(want)
         return "between", math.floor(want), math.ceil(want)
+
+    @staticmethod
+    def same(got, r) -> bool:
+        return got == r
 
     def sample(self, rng: random.Random, ints: bool = True):
         c = rng.random()
@@ -135,14 +146,23 @@ class Float32Rep:
             except Exception:  # noqa: BLE001
                 pass
         for c in cands:
-            if abs(c - want) <= _eps(want):
+            if c == want:
                 return "exact", c, c
         lo = max((c for c in cands if c <= want), default=None)
         hi = min((c for c in cands if c >= want), default=None)
         return "between", lo, hi
 
+    @staticmethod
+    def same(got, r) -> bool:
+        return got == r
+
     def sample(self, rng: random.Random, ints: bool = False):
         c = rng.random()
+        if c < 0.1:
+            # a float step beside a value of the decode image
+            v = self.around(self._f32(rng.uniform(-1e5, 1e5)))[1]
+            if v is not None:
+                return math.nextafter(v, rng.choice((-math.inf, math.inf)))
         if c < 0.4:
             return self._f32(rng.uniform(-1e6, 1e6))
         if c < 0.6:
@@ -159,9 +179,14 @@ class GridRep:
         self.step, self.kmin, self.kmax = step, kmin, kmax
 
     def around(self, want: float):
-        k = want / self.step
+        """The representable reals are k x step with step read as the decimal it was configured with.  A request is 'exact'
+        only if it is the float of such a real (what a user writes: 0.3) or the float product k*step the device itself reports."""
+        from fractions import Fraction
+
+        step = Fraction(repr(self.step))
+        k = Fraction(want) / step
         kr = round(k)
-        if abs(kr * self.step - want) <= 1e-6 * self.step:
+        if want == float(kr * step) or want == kr * self.step:
             if not self.kmin <= kr <= self.kmax:
                 return "between", None, None
             return "exact", kr * self.step, kr * self.step
@@ -169,6 +194,11 @@ class GridRep:
         if lo < self.kmin or hi > self.kmax:
             return "between", None, None
         return "between", lo * self.step, hi * self.step
+
+    @staticmethod
+    def same(got, r) -> bool:
+        # the device reports the float product count*step; allow its last-bit noise only
+        return math.isclose(got, r, rel_tol=1e-12, abs_tol=1e-15)
 
 
 _IMAGES: dict = {}
@@ -999,7 +1029,13 @@ class RNumeric(Row):
     def gen_ops(self, rng, cfg, dev, n):
         rep = self.rep(cfg)
         if isinstance(rep, IntRep):
-            return [["set", rep.sample(rng)] for _ in range(n)]
+            ops = []
+            for _ in range(n):
+                v = rep.sample(rng)
+                if rng.random() < 0.08 and rep.lo < v < rep.hi and abs(v) < 2**52:
+                    v = math.nextafter(float(v), rng.choice((-math.inf, math.inf)))  # neighbour rule
+                ops.append(["set", v])
+            return ops
         return [["set", rep.sample(rng, ints=cfg.get("ints", False))] for _ in range(n)]
 
     async def call(self, h, dev, cfg, op):
@@ -1336,14 +1372,14 @@ def judge(got, want, rep):
         return "wrong-value", kind
 
     def close(a, b) -> bool:
-        return b is not None and abs(a - b) <= _eps(a, b)
+        return b is not None and rep.same(a, b)
 
     if kind == "exact":
         return (None if close(got, lo) else "representable-value-not-reported"), "representable"
     if close(got, lo) or close(got, hi):
         cands = [c for c in (lo, hi) if c is not None]
         nearest = min(cands, key=lambda c: abs(c - want))
-        tag = "between" if close(got, nearest) or (len(cands) == 2 and abs(abs(lo - want) - abs(hi - want)) <= _eps(want)) else "between_not_nearest"
+        tag = "between" if close(got, nearest) or (len(cands) == 2 and abs(lo - want) == abs(hi - want)) else "between_not_nearest"
         return None, tag
     return "outside-neighbouring-representable-values", "between"
 
